@@ -35,18 +35,30 @@ CONSTANTS MaxEvents,        \* length bound of the histories
           MaxProcs,         \* bound of numprocesses
           Fault_CloseFds,   \* Popen(close_fds=True) whatever use_sockets says
           Fault_KeepFds,    \* Popen(close_fds=False) whatever use_sockets says
+          Fault_KeepFdsStdin, \* Popen(close_fds=False) also for watchers with a stdin_socket
           Fault_NoInherit,  \* CircusSocket does not make its descriptor inheritable
           Fault_Rebind      \* the managed sockets are created and bound again at every spawn
 
 SockSeq    == <<"inet", "unix">>            \* creation order (config order)
 Socks      == {"inet", "unix"}
-Watchers   == {"wn", "ws"}
-WIdx       == [wn |-> 1, ws |-> 2]
-UseSockets == [wn |-> FALSE, ws |-> TRUE]
-Refs       == [wn |-> {}, ws |-> {"inet", "unix"}]   \* $(circus.sockets.NAME) occurring in cmd
-Np0        == [wn |-> 1, ws |-> 2]
-\* so_reuseport is meaningful for inet sockets only
-RpChoices  == {[inet |-> FALSE, unix |-> FALSE], [inet |-> TRUE, unix |-> FALSE]}
+\* three kinds of watcher:  ws  use_sockets, the command refers to both sockets
+\*                          wn  neither use_sockets nor stdin_socket
+\*                          wi  stdin_socket = NAME, no use_sockets: preexec dup2()s the managed socket onto
+\*                              descriptor 0 of the child (process.py: os.dup2(stdin_socket_fd, 0)), which happens
+\*                              before Popen closes the other descriptors
+AllWatchers == {"wi", "wn", "ws"}
+WIdx       == [wi |-> 0, wn |-> 1, ws |-> 2]
+UseSockets == [wi |-> FALSE, wn |-> FALSE, ws |-> TRUE]
+Refs       == [wi |-> {}, wn |-> {}, ws |-> {"inet", "unix"}]   \* $(circus.sockets.NAME) occurring in cmd
+Np0        == [wi |-> 1, wn |-> 1, ws |-> 2]
+\* a configuration: so_reuseport flags (meaningful for inet sockets only), the watchers present, and the socket
+\* named by stdin_socket of wi ("none" when wi is absent; never a so_reuseport socket, which the daemon never binds)
+Configs    == {[rp |-> [inet |-> FALSE, unix |-> FALSE], ws |-> {"wn", "ws"}, si |-> "none"],
+               [rp |-> [inet |-> TRUE,  unix |-> FALSE], ws |-> {"wn", "ws"}, si |-> "none"],
+               [rp |-> [inet |-> FALSE, unix |-> FALSE], ws |-> {"wi", "ws"}, si |-> "unix"],
+               [rp |-> [inet |-> FALSE, unix |-> FALSE], ws |-> {"wi", "ws"}, si |-> "inet"],
+               [rp |-> [inet |-> TRUE,  unix |-> FALSE], ws |-> {"wi", "ws"}, si |-> "unix"]}
+StdinOf(s, w) == IF w = "wi" THEN s.si ELSE "none"
 
 Stdio == {0, 1, 2}
 
@@ -79,8 +91,10 @@ CreateAll(s, names) ==
                             !.bound = IF s.rp[n] THEN @ ELSE @ \cup {<<LastIno(s1), n>>}]
        IN  CreateAll(s2, Tail(names))
 
-Blank(rp) ==
-  [rp    |-> rp,
+Blank(c) ==
+  [rp    |-> c.rp,
+   ws    |-> c.ws,           \* the watchers of this configuration
+   si    |-> c.si,           \* stdin_socket of wi
    \* 0,1,2: one open file (the log); 3,4: control and event channel, close-on-exec
    dfd   |-> (0 :> [ino |-> 1, inh |-> TRUE]) @@ (1 :> [ino |-> 1, inh |-> TRUE]) @@ (2 :> [ino |-> 1, inh |-> TRUE])
              @@ (3 :> [ino |-> 2, inh |-> FALSE]) @@ (4 :> [ino |-> 3, inh |-> FALSE]),
@@ -88,8 +102,8 @@ Blank(rp) ==
    sock0 |-> <<>>,           \* ghost: the table as bound at startup
    bound |-> {},             \* kernel: <<inode, name>> bound to the address of `name` and listening
    procs |-> {},             \* live workers
-   np    |-> Np0,
-   nord  |-> [w \in Watchers |-> 1],
+   np    |-> [w \in c.ws |-> Np0[w]],
+   nord  |-> [w \in c.ws |-> 1],
    nino  |-> 10]
 
 (***************************************************************************)
@@ -123,11 +137,14 @@ SpawnOne(s0, w) ==
   LET s     == IF Fault_Rebind THEN RebindAll(s0, SockSeq) ELSE s0
       x     == Extras([s |-> s, map |-> <<>>], w, SockSeq)
       tbl   == x.s.dfd                                  \* the daemon's table at fork time
-      close == IF Fault_CloseFds THEN TRUE ELSE IF Fault_KeepFds THEN FALSE ELSE ~UseSockets[w]
+      close == IF Fault_CloseFds THEN TRUE ELSE IF Fault_KeepFds THEN FALSE
+               ELSE IF Fault_KeepFdsStdin /\ StdinOf(s0, w) # "none" THEN FALSE ELSE ~UseSockets[w]
       keep  == IF close THEN Stdio ELSE {f \in DOMAIN tbl : f \in Stdio \/ tbl[f].inh}
+      si    == StdinOf(s, w)
       p     == [w     |-> w,
                 ord   |-> s.nord[w],
-                fds   |-> [f \in keep |-> tbl[f].ino],
+                \* preexec: dup2(fileno of the stdin socket, 0) -- the copy is not close-on-exec
+                fds   |-> [f \in keep |-> IF f = 0 /\ si # "none" THEN s.sock[si].ino ELSE tbl[f].ino],
                 argfd |-> [n \in Refs[w] |-> IF n \in DOMAIN x.map THEN x.map[n] ELSE s.sock[n].fd]]
   IN  \* `self._sockets = []` after Popen: the per-worker sockets are closed in the daemon
       [x.s EXCEPT !.dfd = s.dfd, !.procs = @ \cup {p}, !.nord = [@ EXCEPT ![w] = @ + 1]]
@@ -135,10 +152,14 @@ SpawnOne(s0, w) ==
 RECURSIVE SpawnN(_, _, _)
 SpawnN(s, w, k) == IF k <= 0 THEN s ELSE SpawnN(SpawnOne(s, w), w, k - 1)
 
-Boot(rp) ==
-  LET s1 == CreateAll(Blank(rp), SockSeq)
+RECURSIVE SpawnAll(_, _)
+SpawnAll(s, todo) == IF todo = {} THEN s
+                     ELSE LET w == CHOOSE v \in todo : \A u \in todo : WIdx[v] >= WIdx[u]
+                          IN  SpawnAll(SpawnN(s, w, Np0[w]), todo \ {w})
+Boot(c) ==
+  LET s1 == CreateAll(Blank(c), SockSeq)
       s2 == [s1 EXCEPT !.sock0 = s1.sock]
-  IN  SpawnN(SpawnN(s2, "ws", Np0["ws"]), "wn", Np0["wn"])
+  IN  SpawnAll(s2, c.ws)
 
 (***************************************************************************)
 (* Events, each up to the next quiescent point                             *)
@@ -151,9 +172,9 @@ Nth(s, w, i) == CHOOSE p \in Live(s, w) : Cardinality({q \in Live(s, w) : q.ord 
 Rank(s, p) == Cardinality({q \in Live(s, p.w) : q.ord < p.ord}) + 1
 Events(s) ==
        {<<"death", p.w, Rank(s, p)>> : p \in s.procs}
-  \cup {<<k, w, 0>> : k \in {"restart", "reload", "stopstart"}, w \in {v \in Watchers : s.np[v] > 0}}
-  \cup {<<"incr", w, 0>> : w \in {v \in Watchers : s.np[v] < MaxProcs}}
-  \cup {<<"decr", w, 0>> : w \in {v \in Watchers : s.np[v] > 0}}
+  \cup {<<k, w, 0>> : k \in {"restart", "reload", "stopstart"}, w \in {v \in s.ws : s.np[v] > 0}}
+  \cup {<<"incr", w, 0>> : w \in {v \in s.ws : s.np[v] < MaxProcs}}
+  \cup {<<"decr", w, 0>> : w \in {v \in s.ws : s.np[v] > 0}}
 
 Apply(s, ev) ==
   LET k == ev[1]
@@ -213,7 +234,11 @@ WorkerObs(s, p) ==
                               /\ s.sock0[n].fd \in DOMAIN p.fds
                               /\ p.fds[s.sock0[n].fd] = s.sock0[n].ino],
    \* descriptors besides stdio that refer to something the daemon has open
-   extra |-> Cardinality({f \in DOMAIN p.fds \ Stdio : DaemonHolds(s, p.fds[f])})]
+   extra |-> Cardinality({f \in DOMAIN p.fds \ Stdio : DaemonHolds(s, p.fds[f])}),
+   \* what is at descriptor 0 of a worker of a stdin_socket watcher
+   stdin |-> LET si == StdinOf(s, p.w) IN
+             IF si = "none" THEN "na"
+             ELSE IF 0 \in DOMAIN p.fds /\ p.fds[0] = s.sock0[si].ino THEN "boot" ELSE "other"]
 
 SockObs(s, n) ==
   IF s.rp[n] THEN [same |-> TRUE, inl |-> TRUE, probe |-> TRUE]         \* excepted by the statement: not observed
@@ -223,7 +248,7 @@ SockObs(s, n) ==
 
 Proj(s) ==
   [socks   |-> [n \in Socks |-> SockObs(s, n)],
-   np      |-> s.np,
+   np      |-> s.np,                    \* a record over the watchers present
    workers |-> SetToSortSeq({WorkerObs(s, p) : p \in s.procs},
                             LAMBDA a, b : WIdx[a.w] * 1000 + a.ord < WIdx[b.w] * 1000 + b.ord)]
 
@@ -239,7 +264,7 @@ MonNoLeak(rp, o) == \A p \in RangeOf(o.workers) : ~UseSockets[p.w] => p.extra = 
 (***************************************************************************)
 VARIABLES s, hist
 
-Init == /\ \E rp \in RpChoices : s = Boot(rp)
+Init == /\ \E c \in Configs : s = Boot(c)
         /\ hist = <<>>
 
 Next == /\ Len(hist) < MaxEvents
@@ -260,10 +285,15 @@ Inv_ProjFaithful == /\ C07_Same(s)   <=> MonSame(s.rp, Proj(s))
                     /\ MonStable(s.rp, Proj(s)) => \A n \in Socks : ~s.rp[n] =>
                                                       s.dfd[s.sock0[n].fd].ino = s.sock0[n].ino
 \* sanity: the accounting of the model itself
-Inv_Count == \A w \in Watchers : Cardinality(Live(s, w)) = s.np[w]
+Inv_Count == \A w \in s.ws : Cardinality(Live(s, w)) = s.np[w]
+\* descriptor 0 of every worker of the stdin_socket watcher is the socket bound at startup (documented behaviour of
+\* stdin_socket; C07 itself only says that nothing else of the daemon is inherited)
+Inv_Stdin == \A p \in s.procs : StdinOf(s, p.w) # "none" =>
+                0 \in DOMAIN p.fds /\ p.fds[0] = s.sock0[StdinOf(s, p.w)].ino
 \* reachability companions (must be VIOLATED when checked: the antecedents are reached)
 Reach_ThirdGeneration == ~(\E p \in s.procs : UseSockets[p.w] /\ p.ord > 2 * MaxProcs)
 Reach_Fresh == ~(\E p \in s.procs : \E n \in Socks : At(s, p, n) = "fresh")
+Reach_StdinThird == ~(\E p \in s.procs : StdinOf(s, p.w) # "none" /\ p.ord >= 3)
 
 (***************************************************************************)
 (* Histories for the live binding.  Two ways out of TLC:                   *)
@@ -273,7 +303,8 @@ Reach_Fresh == ~(\E p \in s.procs : \E n \in Socks : At(s, p, n) = "fresh")
 (*  - the complete set of maximal histories, written to IOEnv.OUT_FILE     *)
 (*    when that variable is set (about 10 s for MaxEvents = 4).            *)
 (***************************************************************************)
-Emit == Len(hist) = MaxEvents => PrintT(<<"HIST", ToJson([rp |-> s.rp, events |-> hist])>>)
+Emit == Len(hist) = MaxEvents =>
+           PrintT(<<"HIST", ToJson([rp |-> s.rp, si |-> s.si, watchers |-> SetToSeq(s.ws), events |-> hist])>>)
 
 RECURSIVE Hists(_, _)
 Hists(st, k) ==
@@ -283,7 +314,8 @@ Hists(st, k) ==
 ASSUME "OUT_FILE" \in DOMAIN IOEnv =>
           JsonSerialize(IOEnv.OUT_FILE,
                         [max_events |-> MaxEvents,
-                         configs |-> SetToSeq({[rp |-> rp, boot |-> Proj(Boot(rp)),
-                                                histories |-> SetToSeq(Hists(Boot(rp), MaxEvents))] :
-                                               rp \in RpChoices})])
+                         configs |-> SetToSeq({[rp |-> c.rp, si |-> c.si, watchers |-> SetToSeq(c.ws),
+                                                boot |-> Proj(Boot(c)),
+                                                histories |-> SetToSeq(Hists(Boot(c), MaxEvents))] :
+                                               c \in Configs})])
 =============================================================================
